@@ -40,6 +40,7 @@ type item struct {
 	syms []string
 	tag  string
 	blk  int // index of the root function's block being encoded when the item was created (-1: none)
+	qf   string // replacement text in the quantifier-free relaxation ("" = derive from text)
 }
 
 // Ctx accumulates the logical context of one verification unit in program order.
@@ -115,6 +116,11 @@ func (c *Ctx) raw(name, text string) {
 		c.names[name] = len(c.items)
 	}
 	c.items = append(c.items, item{kind: itRaw, name: name, text: text, syms: symsOf(text)})
+}
+
+func (c *Ctx) rawQF(name, text, qf string) {
+	c.raw(name, text)
+	c.items[len(c.items)-1].qf = qf
 }
 
 func (c *Ctx) mark() int { return len(c.items) }
